@@ -128,10 +128,10 @@ func ruleR5(p *Prog) []Ob {
 				for _, b2 := range fn.Blocks {
 					for _, i2 := range b2.Instrs {
 						d, ok := i2.(*ssa.Defer)
-						if !ok || atomicOpOn(&d.Call, r.SRInuse) != "Add" {
+						if !ok || !p.deferReleasesInuse(d) {
 							continue
 						}
-						if k, isK := constInt(d.Call.Args[1]); isK && k < 0 && instrDominates(c, d) && p.failureEdgeLeaves(ea, c, d) {
+						if instrDominates(c, d) && p.failureEdgeLeaves(ea, c, d) {
 							def = d
 						}
 					}
@@ -589,6 +589,18 @@ func ruleR20(p *Prog) []Ob {
 // list itself) while the list lock is held exclusively.
 func (p *Prog) detachedBefore(fn *ssa.Function, c *ssa.Call) bool {
 	ls := p.LocksetCached()
+	// a helper that swaps the list under the exclusive lock, called before
+	for _, b := range fn.Blocks {
+		for _, ins := range b.Instrs {
+			hc, ok := ins.(*ssa.Call)
+			if !ok || hc == c || !instrDominates(hc, c) {
+				continue
+			}
+			if g := hc.Common().StaticCallee(); g != nil && g != fn && inModule(g) && recvNamed(g) == p.R.Impl && p.storesListUnderLock(g) {
+				return true
+			}
+		}
+	}
 	for _, b := range fn.Blocks {
 		for _, ins := range b.Instrs {
 			st, ok := ins.(*ssa.Store)
@@ -761,4 +773,66 @@ func (p *Prog) boundFromWriterSize(fn *ssa.Function, v ssa.Value) bool {
 	}
 	saw, good := ok(v, 0)
 	return saw && good
+}
+
+// deferReleasesInuse: the deferred call decrements the in-use counter, directly or as the
+// unconditional body of a deferred closure.
+func (p *Prog) deferReleasesInuse(d *ssa.Defer) bool {
+	if atomicOpOn(&d.Call, p.R.SRInuse) == "Add" {
+		k, isK := constInt(d.Call.Args[1])
+		return isK && k < 0
+	}
+	mc, ok := d.Call.Value.(*ssa.MakeClosure)
+	if !ok {
+		return false
+	}
+	fn := mc.Fn.(*ssa.Function)
+	if len(fn.Blocks) == 0 {
+		return false
+	}
+	for _, ins := range fn.Blocks[0].Instrs { // entry block: unconditional
+		if c, ok := ins.(*ssa.Call); ok {
+			nm := calleeName(c.Common())
+			if nm != "(*sync/atomic.Int64).Add" || len(c.Call.Args) < 2 {
+				continue
+			}
+			fa, ok := c.Call.Args[0].(*ssa.FieldAddr)
+			if !ok || fieldVarOfAddr(fa) != p.R.SRInuse {
+				continue
+			}
+			if k, isK := constInt(c.Call.Args[1]); isK && k < 0 {
+				return true
+			}
+		}
+	}
+	return false
+}
+
+// storesListUnderLock: g replaces an element of (or the whole) segment list while holding the list
+// lock exclusively.
+func (p *Prog) storesListUnderLock(g *ssa.Function) bool {
+	ls := p.LocksetCached()
+	for _, b := range g.Blocks {
+		for _, ins := range b.Instrs {
+			st, ok := ins.(*ssa.Store)
+			if !ok {
+				continue
+			}
+			isList := false
+			switch ad := st.Addr.(type) {
+			case *ssa.IndexAddr:
+				if f, _ := loadedField(ad.X); f == p.R.ImplReaders {
+					isList = true
+				}
+			case *ssa.FieldAddr:
+				if fieldVarOfAddr(ad) == p.R.ImplReaders {
+					isList = true
+				}
+			}
+			if isList && ls.at[st][p.R.ReadersMu] == modeW {
+				return true
+			}
+		}
+	}
+	return false
 }
